@@ -310,12 +310,19 @@ class Evaluator:
             raise _Break()
         if isinstance(st, ast.Continue):
             raise _Continue()
-        if isinstance(st, ast.For) and isinstance(st.target, ast.Name):
+        if isinstance(st, ast.For) and (isinstance(st.target, ast.Name) or (isinstance(st.target, ast.Tuple) and
+                                                                         all(isinstance(e, ast.Name) for e in st.target.elts))):
             it = self.ev(st.iter, env)
             if it.kind not in ('list', 'tuple') or it.items is None:
                 raise Unknown('loop over a collection of unknown contents')
             for x in it.items:
-                env[st.target.id] = x
+                if isinstance(st.target, ast.Name):
+                    env[st.target.id] = x
+                else:
+                    if x.items is None or len(x.items) != len(st.target.elts):
+                        raise Unknown('unpacking in a loop target')
+                    for e, y in zip(st.target.elts, x.items):
+                        env[e.id] = y
                 try:
                     self.exec_block(st.body, env)
                 except _Continue:
@@ -338,13 +345,30 @@ class Evaluator:
         for p, v in zip(a.args, args):
             env[p.arg] = v
         self.depth += 1
+        is_gen = any(isinstance(n, (ast.Yield, ast.YieldFrom)) for n in ast.walk(fn))
+        if is_gen:
+            if not hasattr(self, '_yields'):
+                self._yields = []
+            self._yields.append([])
         try:
             self.exec_block(fn.body, env)
-            return AV('none')
+            return AV('list', items=tuple(self._yields[-1])) if is_gen else AV('none')
         except _Ret as r:
-            return r.v
+            return AV('list', items=tuple(self._yields[-1])) if is_gen else r.v
         finally:
             self.depth -= 1
+            if is_gen:
+                self._yields.pop()
+
+    def call_lambda(self, lam, args: list) -> AV:
+        _, node, outer = lam
+        a = node.args
+        if a.vararg or a.kwarg or a.kwonlyargs or a.posonlyargs or a.defaults or len(a.args) != len(args):
+            raise Unknown('call of a lambda with an unmodelled signature')
+        env = dict(outer)
+        for p, v in zip(a.args, args):
+            env[p.arg] = v
+        return self.ev(node.body, env)
 
     def match_pattern(self, p, subj: AV, env) -> bool:
         if isinstance(p, ast.MatchValue):
@@ -432,11 +456,46 @@ class Evaluator:
                     pass
             raise Unknown('arithmetic')
         if isinstance(node, ast.Lambda):
-            return AV('func', val=node)
+            return AV('func', val=('lambda', node, env))
+        if isinstance(node, ast.Yield):
+            if not getattr(self, '_yields', None):
+                raise Unknown('yield outside a followed generator')
+            self._yields[-1].append(self.ev(node.value, env) if node.value is not None else AV('none'))
+            return AV('none')
+        if isinstance(node, ast.GeneratorExp) or isinstance(node, ast.ListComp):
+            if len(node.generators) != 1:
+                raise Unknown('nested comprehension')
+            g = node.generators[0]
+            it = self.ev(g.iter, env)
+            if it.items is None:
+                raise Unknown('comprehension over a collection of unknown contents')
+            out = []
+            e2 = dict(env)
+            for x in it.items:
+                if isinstance(g.target, ast.Name):
+                    e2[g.target.id] = x
+                elif isinstance(g.target, ast.Tuple) and x.items is not None and len(x.items) == len(g.target.elts):
+                    for t_, y in zip(g.target.elts, x.items):
+                        e2[t_.id] = y
+                else:
+                    raise Unknown('comprehension target')
+                if all(truth(self.ev(c, e2)) for c in g.ifs):
+                    out.append(self.ev(node.elt, e2))
+            return AV('list', items=tuple(out))
         if isinstance(node, ast.JoinedStr):
             return AV('str', text='other')
         if isinstance(node, ast.Subscript):
             base = self.ev(node.value, env)
+            if isinstance(node.slice, ast.Slice) and base.items is not None:
+                def bound(x):
+                    if x is None:
+                        return None
+                    v = self.ev(x, env)
+                    if not isinstance(v.val, int):
+                        raise Unknown('slice bound')
+                    return v.val
+                sl = slice(bound(node.slice.lower), bound(node.slice.upper), bound(node.slice.step))
+                return AV(base.kind, items=tuple(base.items[sl]))
             idx = self.ev(node.slice, env) if not isinstance(node.slice, ast.Slice) else None
             if base.items is not None and idx is not None and isinstance(idx.val, int) and not isinstance(idx.val, bool):
                 if -len(base.items) <= idx.val < len(base.items):
@@ -458,8 +517,10 @@ class Evaluator:
                  'self.__class__': 'EmptyCell', 'object': 'object', 'type(None)': 'NoneType'}
         if txt in table:
             return [table[txt]]
-        if isinstance(node, ast.Name) and node.id in env and env[node.id].val and env[node.id].val[0] == 'class':
-            return [env[node.id].val[1]]
+        if isinstance(node, ast.Name) and node.id in env and isinstance(env[node.id].val, tuple) and \
+                env[node.id].val[0] in ('class', 'name'):
+            nm = env[node.id].val[1]
+            return [table.get(nm, nm)]
         raise Unknown(f'class expression {txt}')
 
     def call(self, node: ast.Call, env) -> AV:
@@ -473,6 +534,8 @@ class Evaluator:
             name = env[name].val[1]                       # a builtin passed around as a value
         if name is not None and name in env and env[name].kind == 'func':
             hook = self.hooks.get('<call:' + name + '>') or self.hooks.get('<call>')
+            if hook is None and isinstance(env[name].val, tuple) and env[name].val[0] == 'lambda':
+                return self.call_lambda(env[name].val, [self.ev(a, env) for a in node.args])
             if hook is None:
                 raise Unknown(f'call of the function value {name}')
             return hook(self, [self.ev(a, env) for a in node.args])
@@ -490,6 +553,37 @@ class Evaluator:
             return to_str(self.ev(node.args[0], env))
         if name == 'bool':
             return const_av(truth(self.ev(node.args[0], env)))
+        if name == 'next' and node.args:
+            v = self.ev(node.args[0], env)
+            if v.items is None:
+                raise Unknown('next of an unknown iterator')
+            if v.items:
+                return v.items[0]
+            if len(node.args) > 1:
+                return self.ev(node.args[1], env)
+            raise AbsRaise('StopIteration', 'next')
+        if name == 'enumerate' and node.args:
+            v = self.ev(node.args[0], env)
+            start = 0
+            extra = node.args[1:] + [k.value for k in node.keywords if k.arg == 'start']
+            if extra:
+                sv = self.ev(extra[0], env)
+                if not isinstance(sv.val, int):
+                    raise Unknown('enumerate start')
+                start = sv.val
+            if v.items is None:
+                raise Unknown('enumerate of a collection of unknown contents')
+            return AV('list', items=tuple(AV('tuple', items=(const_av(start + i), x)) for i, x in enumerate(v.items)))
+        if name in ('list', 'tuple') and len(node.args) == 1:
+            v = self.ev(node.args[0], env)
+            if v.items is not None:
+                return AV(name, items=v.items)
+            raise Unknown(name)
+        if name == 'reversed' and len(node.args) == 1:
+            v = self.ev(node.args[0], env)
+            if v.items is not None:
+                return AV('list', items=tuple(reversed(v.items)))
+            raise Unknown('reversed')
         if name == 'len':
             v = self.ev(node.args[0], env)
             if v.items is not None:
